@@ -1,5 +1,6 @@
 """property id -> harness modules (each exposes cases(tier) -> [Case])"""
 REGISTRY = {
+    "C11": {"modules": ["harness.C11_em"], "uncovered": ["timed / multiset / n-gram EM drivers (same em_update_matrix kernel)", "float32 rounding of the posterior", "'column sums exactly 1 at epsilon = 0' follows from the procedure equality and is not asserted separately"]},
     "C14": {"modules": ["harness.C14_mask"], "uncovered": ["timed / multiset / n-gram co-occurrence and tree vectorizers (same masking code pattern, not yet encoded)", "NgramVectorizer.nullify_mask (excluded by the property)"]},
     "C05": {"modules": ["harness.C05_vocab"], "uncovered": ["excluded_token_regex (regular expressions on symbolic strings are outside the encoding)", "second-stage n-gram pruning in NgramVectorizer / NgramCooccurrenceVectorizer (same prune_token_dictionary code, exercised through cls_ngram min_occ cases)", "totals above the IEEE bound, counts >= 2**24"]},
     "C01": {"modules": ["harness.C01_shape"], "uncovered": ["Histogram (covered under C20), KDE, Distribution (sklearn objects)", "Wasserstein family"]},
